@@ -99,6 +99,15 @@ def where(fn, span):
     return "%s in %s" % (span, fn.path)
 
 
+def single_bit(e):
+    """bit index of a mask expression that is one bit: `1 << n` or the literal 2^n; None otherwise"""
+    if e[0] == "bin" and e[1] == "Shl" and e[2][0] == "const" and e[2][2] == 1 and e[3][0] == "const":
+        return e[3][2]
+    if e[0] in ("const", "named") and isinstance(e[2], int) and not isinstance(e[2], bool) and e[2] > 0 and (e[2] & (e[2] - 1)) == 0:
+        return e[2].bit_length() - 1
+    return None
+
+
 def switch_arms(fn, bb):
     """for the switch terminating block bb: {value|'otherwise': set(blocks exclusive to that arm)}"""
     t = fn.term(bb)
